@@ -80,6 +80,7 @@ class NDArr(PyNative):
     """A dense array of exact numbers (nested lists) with numpy's basic indexing."""
 
     def __init__(self, data, shape=None):
+        data = _plain(data)
         self.data = data
         if shape is None:
             shape = []
@@ -151,6 +152,113 @@ class NDArr(PyNative):
         import copy
         return NDArr(copy.deepcopy(self.data), self.shape)
 
+    def __setitem__(self, idx, value):
+        """Basic indexing assignment (ints and slices); the value is a scalar or an array of the selected shape (leading axes of length 1 may be missing)."""
+        if not isinstance(idx, tuple):
+            idx = (idx,)
+        if len(idx) > len(self.shape):
+            raise IndexError("too many indices for array")
+        idx = tuple(idx) + (slice(None),) * (len(self.shape) - len(idx))
+        sel_shape = tuple(_sliced_shape(idx, self.shape))
+        if isinstance(value, NDArr):
+            vshape = tuple(value.shape)
+            while len(vshape) < len(sel_shape):
+                vshape = (1,) + vshape
+            lead = len(vshape) - len(sel_shape)
+            if lead > 0 and all(n == 1 for n in vshape[:lead]):
+                vshape = vshape[lead:]
+            if any(a != b and a != 1 for a, b in zip(vshape, sel_shape)) or len(vshape) != len(sel_shape):
+                raise ValueError(f"could not broadcast input array from shape {value.shape} into shape {sel_shape}")
+            flat = value.flat()
+
+            def at(pos):
+                k = 0
+                for p_, n in zip(pos, vshape):
+                    k = k * n + (p_ if n != 1 else 0)
+                return flat[k]
+        elif isinstance(value, (list, tuple)):
+            return self.__setitem__(idx, NDArr(list(value)))
+        else:
+            def at(pos):
+                return value
+
+        def put(d, k, shape, pos):
+            i = idx[k]
+            n = shape[0]
+            last = k == len(idx) - 1
+            if isinstance(i, slice):
+                for c, j in enumerate(range(*i.indices(n))):
+                    if last:
+                        d[j] = at(pos + (c,))
+                    else:
+                        put(d[j], k + 1, shape[1:], pos + (c,))
+            else:
+                if isinstance(i, bool) or not isinstance(i, int):
+                    raise IndexError(f"unsupported index {i!r}")
+                if not -n <= i < n:
+                    raise IndexError(f"index {i} is out of bounds for axis {k} with size {n}")
+                if last:
+                    d[i] = at(pos)
+                else:
+                    put(d[i], k + 1, shape[1:], pos)
+        if self.shape:
+            put(self.data, 0, self.shape, ())
+
+    # ---- elementwise arithmetic (same shape, or a scalar) ----
+    def _ew(self, o, fn):
+        if isinstance(o, NDArr):
+            if o.shape != self.shape:
+                if o.size == 1:
+                    v = o.flat()[0]
+                    return self._ew(v, fn)
+                if self.size == 1:
+                    v = self.flat()[0]
+                    return NDArr(_rebuild([fn(v, y) for y in o.flat()], o.shape), o.shape)
+                raise ValueError(f"operands could not be broadcast together with shapes {self.shape} {o.shape}")
+            return NDArr(_rebuild([fn(x, y) for x, y in zip(self.flat(), o.flat())], self.shape), self.shape)
+        if isinstance(o, (list, tuple)):
+            return self._ew(NDArr(list(o)), fn)
+        return NDArr(_rebuild([fn(x, o) for x in self.flat()], self.shape), self.shape)
+
+    def __add__(self, o):
+        return self._ew(o, lambda a, b: a + b)
+
+    __radd__ = __add__
+
+    def __sub__(self, o):
+        return self._ew(o, lambda a, b: a - b)
+
+    def __rsub__(self, o):
+        return self._ew(o, lambda a, b: b - a)
+
+    def __mul__(self, o):
+        return self._ew(o, lambda a, b: a * b)
+
+    __rmul__ = __mul__
+
+    def __truediv__(self, o):
+        return self._ew(o, lambda a, b: a / b)
+
+    def __neg__(self):
+        return self._ew(0, lambda a, b: -a)
+
+    def reshape(self, *shape):
+        if len(shape) == 1 and isinstance(shape[0], (tuple, list)):
+            shape = tuple(shape[0])
+        n = 1
+        for v in shape:
+            n *= v
+        if n != self.size:
+            raise ValueError(f"cannot reshape array of size {self.size} into shape {tuple(shape)}")
+        return NDArr(_rebuild(self.flat(), tuple(shape)), tuple(shape))
+
+    @property
+    def T(self):
+        if self.ndim != 2:
+            raise ValueError("transpose of a non-matrix not modelled")
+        r, c = self.shape
+        return NDArr([[self.data[i][j] for i in range(r)] for j in range(c)], (c, r))
+
     def __eq__(self, o):
         return isinstance(o, NDArr) and o.shape == self.shape and o.flat() == self.flat()
 
@@ -177,6 +285,45 @@ class NDArr(PyNative):
 
     def __str__(self):
         return self._render()
+
+
+def _plain(d):
+    """nested lists / tuples / arrays -> nested lists"""
+    if isinstance(d, NDArr):
+        return d.tolist()
+    if isinstance(d, (list, tuple)):
+        return [_plain(x) for x in d]
+    return d
+
+
+def _rebuild(flat, shape):
+    if not shape:
+        return flat[0]
+    if len(shape) == 1:
+        return list(flat[:shape[0]])
+    step = 1
+    for n in shape[1:]:
+        step *= n
+    return [_rebuild(flat[i * step:(i + 1) * step], shape[1:]) for i in range(shape[0])]
+
+
+def dot(a, b):
+    """np.dot for (.., n) x (n,) and (m, n) x (n, k)."""
+    a = a if isinstance(a, NDArr) else NDArr(list(a))
+    b = b if isinstance(b, NDArr) else NDArr(list(b))
+    if b.ndim == 1:
+        if a.shape[-1] != b.shape[0]:
+            raise ValueError(f"shapes {a.shape} and {b.shape} not aligned")
+        fa, vb = a.flat(), b.flat()
+        n = b.shape[0]
+        out = [sum((fa[r * n + k] * vb[k] for k in range(n)), 0) for r in range(a.size // n)] if n else []
+        shp = a.shape[:-1]
+        return NDArr(_rebuild(out, shp), shp) if shp else out[0]
+    if a.ndim == 2 and b.ndim == 2:
+        if a.shape[1] != b.shape[0]:
+            raise ValueError(f"shapes {a.shape} and {b.shape} not aligned")
+        return NDArr([[sum((a.data[i][k] * b.data[k][j] for k in range(a.shape[1])), 0) for j in range(b.shape[1])] for i in range(a.shape[0])])
+    raise ValueError("np.dot of these ranks is not modelled")
 
 
 def _sliced_shape(idx, shape):
@@ -233,6 +380,8 @@ def install_arrays(it):
     it.overrides["np.array"] = _PyCall(lambda x, **k: x if isinstance(x, NDArr) else NDArr(x))
     it.overrides["np.asarray"] = it.overrides["np.array"]
     it.overrides["np.ascontiguousarray"] = it.overrides["np.array"]
+    it.overrides["np.dot"] = _PyCall(dot)
+    it.overrides["np.reshape"] = _PyCall(lambda a, shape, **k: (a if isinstance(a, NDArr) else NDArr(a)).reshape(shape))
     it.overrides["np.array2string"] = _PyCall(lambda x, **k: str(x))
     it.overrides["np.array_str"] = _PyCall(lambda x, **k: str(x))
     it.overrides["np.array_repr"] = _PyCall(lambda x, **k: repr(x))
